@@ -11,6 +11,7 @@ import (
 	"time"
 
 	"verif/engine"
+	"verif/ref/ccachefmt"
 	"verif/ref/keytabfmt"
 	"verif/ref/krbmsg"
 	"verif/ref/rcrypto"
@@ -18,6 +19,7 @@ import (
 
 	"github.com/jcmturner/gokrb5/v8/client"
 	"github.com/jcmturner/gokrb5/v8/config"
+	"github.com/jcmturner/gokrb5/v8/credentials"
 	"github.com/jcmturner/gokrb5/v8/keytab"
 	"github.com/jcmturner/gokrb5/v8/zzverif/vclock"
 	"github.com/jcmturner/gokrb5/v8/zzverif/vnet"
@@ -36,7 +38,7 @@ var etypeNames = map[int32]string{16: "des3-cbc-sha1-kd", 17: "aes128-cts-hmac-s
 
 // Opts selects a configuration.
 type Opts struct {
-	Cred             string        `json:"cred"` // "password" | "keytab"
+	Cred             string        `json:"cred"` // "password" | "keytab" | "ccache" (a credential cache holding a TGT and a ticket for HTTP/host.test.gokrb5 with half the TGT's lifetime)
 	ETypes           []int32       `json:"etypes"`
 	PreAuth          string        `json:"preauth"` // "none" | "required" | "assumed"
 	Forwardable      bool          `json:"forwardable"`
@@ -76,6 +78,7 @@ type World struct {
 	Conf    string
 	Client  *client.Client
 	Keytab  []byte
+	CCache  []byte
 	KDCAddr []string
 	// SiblingKeys: keys of sibling/<instance> held by the client keytab next to the user's (UserInstance only)
 	SiblingKeys []simkdc.Key
@@ -113,7 +116,7 @@ func ConfText(o Opts) string {
 	for i := 1; i <= o.ChainRealms; i++ {
 		fmt.Fprintf(&sb, " %s = {\n  kdc = kdc.r%d.gokrb5:88\n }\n", chainRealm(i), i)
 	}
-	fmt.Fprintf(&sb, "[domain_realm]\n .test.gokrb5 = %s\n .other.gokrb5 = %s\n", Realm, OtherRealm)
+	fmt.Fprintf(&sb, "[domain_realm]\n .gokrb5 = %s\n .test.gokrb5 = %s\n .other.gokrb5 = %s\n", Realm, Realm, OtherRealm) // nested suffixes: the most specific one decides
 	return sb.String()
 }
 
@@ -161,6 +164,8 @@ func New(o Opts) *World {
 			params = nil // without a hint from the KDC the client can only use the default parameters
 		}
 		w.KDC.AddPasswordPrincipal(UserNames(o), w.PasswordValue(), o.ETypes, o.Salt, params)
+	} else if o.Cred == "ccache" {
+		w.KDC.AddKeyPrincipal(UserNames(o), o.ETypes)
 	} else {
 		p := w.KDC.AddKeyPrincipal(UserNames(o), o.ETypes)
 		var items []keytabfmt.Item
@@ -229,8 +234,36 @@ func New(o Opts) *World {
 	}
 	w.Conf = ConfText(o)
 	w.Config = ParseCached(w.Conf)
+	if o.Cred == "ccache" {
+		w.CCache = w.writeCCache()
+	}
 	w.Client = w.NewClient()
 	return w
+}
+
+// writeCCache has the KDC issue a TGT and one service ticket directly and writes them as a version-4 credential
+// cache with the independent writer ref/ccachefmt.
+func (w *World) writeCCache() []byte {
+	o := w.Opts
+	var flags uint32 = simkdc.FlagInitial
+	if o.Forwardable {
+		flags |= simkdc.FlagForwardable
+	}
+	if o.Proxiable {
+		flags |= simkdc.FlagProxiable
+	}
+	me := ccachefmt.Principal{NameType: 1, Realm: Realm, Components: UserNames(o)}
+	cred := func(is *simkdc.Issued) ccachefmt.Credential {
+		c := ccachefmt.Credential{Client: me, Server: ccachefmt.Principal{NameType: 2, Realm: Realm, Components: is.SName}, KeyType: uint16(is.KeyEtype), Key: is.SessionKey,
+			AuthTime: int32(is.AuthTime.Unix()), StartTime: int32(is.Start.Unix()), EndTime: int32(is.End.Unix()), Flags: is.Flags, Ticket: is.Ticket}
+		if is.RenewTill != nil {
+			c.RenewTill = int32(is.RenewTill.Unix())
+		}
+		return c
+	}
+	tgt := w.KDC.IssueDirect(UserNames(o), []string{"krbtgt", Realm}, o.TicketLifetime, o.RenewLifetime, flags)
+	svc := w.KDC.IssueDirect(UserNames(o), []string{"HTTP", "host.test.gokrb5"}, o.TicketLifetime/2, o.RenewLifetime, flags&^simkdc.FlagInitial)
+	return ccachefmt.Write(ccachefmt.CCache{Version: 4, Default: me, Creds: []ccachefmt.Credential{cred(tgt), cred(svc)}})
 }
 
 // UserNames returns the components of the client principal.
@@ -256,6 +289,17 @@ func (w *World) NewClient(extra ...func(*client.Settings)) *client.Client {
 		sets = append(sets, client.AssumePreAuthentication(true))
 	}
 	sets = append(sets, extra...)
+	if w.Opts.Cred == "ccache" {
+		cc := new(credentials.CCache)
+		if err := cc.Unmarshal(w.CCache); err != nil {
+			engine.FailValid("credentials.CCache.Unmarshal(version-4 cache with a TGT and a service ticket)", err)
+		}
+		cl, err := client.NewFromCCache(cc, w.Config, sets...)
+		if err != nil {
+			engine.FailValid("client.NewFromCCache(cache with a TGT and a service ticket)", err)
+		}
+		return cl
+	}
 	if w.Opts.Cred == "password" {
 		return client.NewWithPassword(strings.Join(UserNames(w.Opts), "/"), Realm, w.PasswordValue(), w.Config, sets...)
 	}
